@@ -1933,3 +1933,54 @@ def sample_size_det(S, I, variant):
         S.holds("crossing at the result (or no crossing at all and result = N)",
                 bor(crossed(isub(r, 1)), band(icmp("==", r, Nt), bnot(crossed(kq)))))
         S.holds("no crossing before the result", bimp(icmp("<", kq, isub(r, 1)), bnot(crossed(kq))))
+
+
+# ------------------------------------------------------------------ documented defaults (eta = u (1 - eps) when not given)
+
+@script(["C13", "C12"], "NonnegMean estimators/default alternative u(1-eps)", variants=(("fixed_alternative_mean",), ("shrink_trunc",), ("wald_sprt",)))
+def default_eta(S, I, variant):
+    which = variant[0]
+    install_contracts(I)
+    install_welford(I)
+    n, u, t, Nv, Nspec = base_regime(S, True)
+    x = S.array("x", n, 0, u)
+    eta_def = xmul(npx(u), xsub(XR.const(1, npk=True), XR.const(EPS, npk=True)))
+    PS = x.fold("+")
+    if which == "fixed_alternative_mean":
+        self = mk_self(I, {"u": u, "N": Nv, "t": t})
+        fn = I.get(MOD, "NonnegMean.fixed_alternative_mean")
+        r, exc = run_guard(S, I, fn, [self, x], native=nn_native("fixed_alternative_mean", True))
+        if exc:
+            return
+        for k in indices(S, n, "k"):
+            S.eq("eta_k = (N u(1-eps) - PS(k))/(N-k) when no alternative is given", r.at(k), mu_spec(Nspec, eta_def, PS, k))
+    elif which == "shrink_trunc":
+        c_, d, f, minsd = shrink_params(S)
+        self = mk_self(I, {"u": u, "N": Nv, "t": t, "c": c_, "d": d, "f": f, "minsd": minsd})
+        fn = I.get(MOD, "NonnegMean.shrink_trunc")
+        r, exc = run_guard(S, I, fn, [self, x], native=nn_native("shrink_trunc", True, attrs=("c", "d", "f", "minsd")))
+        if exc:
+            return
+        instM = m2_nonneg_lemma(S, x, n)
+        for k in indices(S, n, "k"):
+            instM(k)
+            instM(iadd(k, 1))
+            spec, mu, cap = shrink_spec(x, k, u, t, Nspec, eta_def, c_, d, f, minsd)
+            S.eq("eta_k per the documented definition with eta = u(1-eps)", r.at(k), spec)
+    else:
+        self = mk_self(I, {"u": u, "N": Nv, "t": t, "random_order": True})
+        fn = I.get(MOD, "NonnegMean.wald_sprt")
+        I.trace.clear()
+        r, exc = run_guard(S, I, fn, [self, x], native=nn_native("wald_sprt", True))
+        if exc:
+            return
+        p, hist = r
+        if isinstance(n, int):
+            return
+        cps = I.trace.get("cum*", [])
+        if len(cps) != 1:
+            S.holds("exactly one running product", False)
+            return
+        k = indices(S, n, "k")[0]
+        S.eq("SPRT factor uses eta_k = (N u(1-eps) - PS(k))/(N-k) when no alternative is given", cps[0].at(k),
+             alpha_factor(x.at(k), mu_spec(Nspec, eta_def, PS, k), mu_spec(Nspec, t, PS, k), u))
